@@ -354,6 +354,8 @@ pub fn c14(ctx: &Ctx, rep: &mut Report) {
         let wanted = [
             "member-name-clashes", "polymorphic-sites", "methods-named-like-builtins", "method-resolution-depths", "this-chains-and-self-fields", "readme-objects", "constructor-instances",
             "same-text-function-and-method", "one-literal-many-chains", "shared-values", "nested-object-literals", "method-254-args", "many-methods", "many-fields",
+            "linked-structures", "tail-call-shapes", "fields-named-like-later-globals", "one-name-everywhere", "this-escapes", "parents-of-every-kind", "reentrant-methods-and-tail-calls",
+            "algebraic-identities", "child-in-parents-field", "block-and-conditional-receivers",
         ];
         if !wanted.contains(&name.as_str()) {
             continue;
@@ -682,6 +684,42 @@ pub fn c07(ctx: &Ctx, rep: &mut Report) {
             Err(e) => rep.violation("C07:identifier-word-rejected", format!("`{}` is not a keyword, but a program that uses it as variable, parameter, field, function and method name is rejected: {}", w, e), json!({"check":"C07","src":src,"expected_ast": serde_json::to_value(&expect).unwrap_or_default()})),
         }
         rep.bump("c07-identifier-words", &format!("{} letters", w.len().min(8)));
+    }
+    // (1c) every white-space character on its own, between all tokens of a small program
+    let plain_toks = ["let", "x", "=", "1", ";", "function", "f", "(", "a", ",", "b", ")", "->", "a", "+", "b", ";", "print", "(", "\"~ ~\\n\"", ",", "x", ",", "f", "(", "x", ",", "2", ")", ")", ";", "if", "x", "then", "begin", "x", "end", "else", "object", "begin", "let", "y", "=", "x", "end"];
+    if let Ok(expect) = real::parse(&plain_toks.join(" ")) {
+        for (wn, ws) in [
+            ("space", " "), ("tab", "\t"), ("line feed", "\n"), ("carriage return", "\r"), ("CR LF", "\r\n"), ("form feed", "\u{c}"), ("vertical tab", "\u{b}"), ("NEL U+0085", "\u{85}"),
+            ("no-break space U+00A0", "\u{a0}"), ("line separator U+2028", "\u{2028}"), ("paragraph separator U+2029", "\u{2029}"), ("em space U+2003", "\u{2003}"),
+            ("ideographic space U+3000", "\u{3000}"), ("ogham space U+1680", "\u{1680}"), ("narrow no-break space U+202F", "\u{202f}"), ("en quad U+2000", "\u{2000}"), ("thin space U+2009", "\u{2009}"),
+            ("medium mathematical space U+205F", "\u{205f}"), ("two blanks", "  "), ("blank line", "\n\n"),
+        ]
+        .iter()
+        {
+            kw += 1;
+            if !ctx.mine(kw) {
+                continue;
+            }
+            for form in 0..3 {
+                rep.evaluations += 1;
+                let src = match form {
+                    0 => plain_toks.join(ws),
+                    1 => format!("{}{}{}", ws, plain_toks.join(ws), ws),
+                    _ => plain_toks.join(&format!(" {} ", ws)),
+                };
+                match real::parse(&src) {
+                    Ok(ast) => {
+                        rep.conclusive += 1;
+                        rep.nontrivial(hash_str(&src));
+                        if ast != expect {
+                            rep.violation("C07:whitespace-kind", format!("with {} between the tokens the program parses to a different tree", wn), json!({"check":"C07","src":src,"expected_ast": serde_json::to_value(&expect).unwrap_or_default()}));
+                        }
+                    }
+                    Err(e) => rep.violation("C07:whitespace-kind-rejected", format!("with {} between the tokens the program is rejected: {}", wn, e), json!({"check":"C07","src":src,"expected_ast": serde_json::to_value(&expect).unwrap_or_default()})),
+                }
+                rep.bump("c07-whitespace-kinds", wn);
+            }
+        }
     }
     // longer chains (4-9 operators), sampled, against the same independent climbing parser; written
     // with and without blanks
